@@ -16,6 +16,11 @@ THEOREMS = [
     'Ws.accept_inv', 'Ws.closeGo_inv', 'Ws.close_inv', 'Ws.sendMsg_inv', 'Ws.receive_spec', 'Ws.recv_inv', 'Ws.op_inv',
     'Ws.runScript_inv', 'Ws.cleanup_inv', 'Ws.handleException_inv', 'Ws.handle_inv', 'Ws.handleMw_inv',
     'Ws.closeGo_closed', 'Ws.close_closed', 'Ws.cleanup_closed', 'Ws.handleException_closed', 'Ws.validCode_http',
+    # a close reason only reaches servers that support it
+    'Ws.reason_only_if_supported', 'Ws.rejectFirst_reason',
+    'Ws.SaneB.congr', 'Ws.SaneB.snoc', 'Ws.SaneB.frame', 'Ws.send_frame', 'Ws.closeGo_frame', 'Ws.guarded_no_reason', 'Ws.close_sane',
+    'Ws.accept_sane', 'Ws.sendMsg_sane', 'Ws.receive_frame', 'Ws.recv_sane', 'Ws.op_sane', 'Ws.runScript_sane', 'Ws.cleanup_sane',
+    'Ws.handleException_sane', 'Ws.handle_sane',
 ]
 STATEMENTS = {
     'Ws.emitted_trace_legal': 'for every configuration (spec version, close-reason table, error_close_code, custom error handler script), responder script with per-op catch flags, every sequence of observed disconnect-flag values, inbox, and every position and kind of a failing server send: the events the server accepted form a word of connecting -accept-> open -send*-> open -close-> done (connecting -close-> done is the 403 denial), i.e. <= 1 accept, data only between accept and close, <= 1 close, nothing after close',
@@ -32,6 +37,8 @@ STATEMENTS = {
     'Ws.close_sends': 'close() with no code (1000) or a valid code, on a socket not closed and not known lost, with a working send: exactly one close event with that code; the reason is attached iff (a reason was given or the code has a default reason) and the server supports reasons (spec >= 2.3); the state becomes CLOSED with that code',
     'Ws.http_error_close_code': 'HTTPError(s)/HTTPStatus(s) (0 <= s <= 999; an unrouted path is HTTPError 404 -> 3404, a missing responder HTTPError 405 -> 3405) reaching the default handlers on an open socket send exactly one close event with code 3000 + s',
     'Ws.unexpected_error_close_code': 'any other exception (no custom handler) closes with ws_options.error_close_code, or with 3011 when that code is not a valid close code',
+    'Ws.reason_only_if_supported': 'when the server\'s spec version has no close reasons (< 2.3), no close event of the session - issued by the responder, a middleware, an error handler or the framework itself - carries a reason; for every script, inbox, fault, routing outcome and flag sequence',
+    'Ws.rejectFirst_reason': 'the close 1011 answering a first event that is not websocket.connect carries a reason iff the server supports it',
     'Ws.send_spec': '_send either hands exactly the event to the server and keeps the state (which was not CLOSED), or hands nothing that the server accepts, raises, and keeps the state or moves it to CLOSED',
 }
 TRUSTED = [
@@ -51,8 +58,8 @@ RULE = ('random sessions: responder scripts of 0..8 ops x client scripts of 0..6
         'x route (responder / unrouted / no on_websocket) x first event not connect x error_close_code valid/reserved/<1000 x random yields in the server callables; '
         'plus every script of length <= 2 (quick) / <= 3 (thorough) over 13 ops x 3 client scripts x fault index x queue 0/4; '
         'non-trivial = at least one event was handed to the server\'s send; distinct = distinct driver line (configuration + scripts + observed flags)')
-PARTIAL = ('reason_only_if_supported and payloads_in_order_unchanged are not Lean theorems (close_sends fixes the reason bit per call; both are enforced by the '
-           'correspondence and the statement oracle); the disconnect flag is an input of the model (observed on the real object and fed to the driver), '
+PARTIAL = ('payloads_in_order_unchanged is not a Lean theorem: the model abstracts payloads to their kind (text / valid-JSON text / binary) and consumes the client script in order by construction; '
+           'payload identity and order are enforced by the statement oracle on the real code; the disconnect flag is an input of the model (observed on the real object and fed to the driver), '
            'its timing is C18\'s subject')
 JOBS = {'quick': 4, 'thorough': 16}
 
@@ -77,7 +84,9 @@ def gen_random(rnd):
         script[0] = {'tok': 'A000', 'catch': 1, 'var': 0}
     inbox = [rnd.choice(['t1', 't0', 'b', 't1', 'b']) for _ in range(rnd.choice([0, 1, 2, 3, 4, 6]))]
     starve = 'late'
-    if rnd.random() < 0.5:
+    if q and rnd.random() < 0.4:
+        inbox = inbox[:rnd.choice([0, 0, 1, 2])] + [rnd.choice(DISC)]     # an early disconnect: the pump sets the flag while the script runs
+    elif rnd.random() < 0.5:
         inbox.append(rnd.choice(DISC))
     elif q == 0 and rnd.random() < 0.6:
         starve = 'raise'
@@ -568,7 +577,7 @@ def run(ctx):
             raised = last
         elif len(scripted) == planned and spec['route'] == 'u': raised = 'HE:404'
         elif len(scripted) == planned and spec['route'] == 'n': raised = 'HE:405'
-        elif len(scripted) != planned: return 'harness error: script stopped early'
+        elif len(scripted) != planned: return f'{len(scripted)} middleware/responder steps ran, the routing outcome {spec["route"]!r} allows {planned} (process_resource_ws without a routed resource, or steps skipped)'
         errcode = spec['err'] if valid_code(spec['err']) else 3011
         handled_by_custom = False
         if raised is None: expect = 1000; ending = 'return'
@@ -665,7 +674,7 @@ def run(ctx):
 
     async def main():
         rnd = ctx.rng
-        for _ in range(ctx.n(5000, 60000)):
+        for _ in range(ctx.n(8000, 60000)):
             await one(gen_random(rnd), 'random')
         i, k = ctx.shard
         maxlen = 2 if ctx.quick else 3
@@ -680,10 +689,10 @@ LEVEL_TEXT = ('Machine-checked proofs (Lean 4) over an executable model that tra
               'translation, _require_accepted, close-code validation, reason/header support by spec version) and App._handle_websocket with WebSocket middleware, '
               'the default error handlers, _ws_cleanup_on_error and a custom handler: for every script, client script, fault position/kind, configuration and '
               'every sequence of observed disconnect-flag values the events accepted by the server are a word of the ASGI send-side automaton '
-              '(emitted_trace_legal[_mw]); a session that returns normally is closed, denied or known lost (closed_unless_escaped[_mw]); the wrong-state error '
-              'table, the close-code table and the error -> close-code mapping are theorems. The model is tied to the real falcon.asgi.App (source mode) on every '
+              '(emitted_trace_legal[_mw]); a session that returns normally is closed, denied or known lost (closed_unless_escaped[_mw]); no close reason reaches a server '
+              'that does not support it (reason_only_if_supported); the wrong-state error table, the close-code table and the error -> close-code mapping are theorems. The model is tied to the real falcon.asgi.App (source mode) on every '
               'run by a differential correspondence on the exact sequence of send calls (incl. which one raised), per-op outcomes, escaped exception and the public '
               'state flags, in both queue modes; an independent protocol monitor and (state, op) oracle written from the statement decide failing inputs.')
 LEVEL_NOTE = ('Trusted: Lean kernel + standard axioms; the scripted ASGI server, correspondence harness and oracles. The disconnect flag is a model input fed from the '
-              'real object (its timing is C18). reason_only_if_supported / payload order are enforced by correspondence + oracle, not as theorems.')
+              'real object (its timing is C18). Payload identity/order is enforced by the statement oracle on the real code, not as a theorem (the model abstracts payloads to kinds).')
 TECHNIQUE = 'Lean 4 invariant proof over an executable session model + differential correspondence model vs. real falcon.asgi.App + independent ASGI protocol monitor'
